@@ -465,10 +465,8 @@ func (c *fnCtx) mergeInto(b *ssa.BasicBlock) *State {
 		v.T = phi.Type()
 		entryPhi[phi] = c.nameVal(v, "phi0_"+phi.Comment)
 	}
+	c.autoInvariants(li)
 	invs := c.invariantsFor(li)
-	if len(invs) == 0 {
-		invs = c.autoInvariants(li)
-	}
 	for _, inv := range invs {
 		for phi, v := range entryPhi {
 			c.vals[phi] = v
@@ -584,7 +582,21 @@ func (c *fnCtx) invariantsFor(li *loopInfo) []Clause {
 		return nil
 	}
 	if invs := c.con.Invariants[li.ordinal]; len(invs) > 0 {
-		return invs
+		// user invariants first; the automatic counter candidates are kept as well unless the
+		// user text already contains them
+		out := append([]Clause{}, invs...)
+		for _, a := range c.autoInvs[li.ordinal] {
+			dup := false
+			for _, u := range invs {
+				if strings.Contains(u.Text, a.Text) {
+					dup = true
+				}
+			}
+			if !dup {
+				out = append(out, a)
+			}
+		}
+		return out
 	}
 	return c.autoInvs[li.ordinal]
 }
